@@ -461,8 +461,8 @@ def signature(prop, tr, matched):
     return f"{prop}/tee/{what}-rejected{ctx}"
 
 
-def check(prop, tier, seed):
-    v = Verdict(prop, tier, seed)
+def check(prop, tier, seed, into=None):
+    v = into or Verdict(prop, tier, seed)
     L = tm.load_lib()
     del L
     tot = {"states": 0, "transitions": 0, "edges": 0, "paths": 0, "drift": 0, "drift_benign": 0,
